@@ -1005,8 +1005,15 @@ class AdbDeviceAsync(object):
 
             try:
                 await self._pull(device_path, stream, progress_callback, adb_info, filesync_info)
-            finally:
-                await self._clse(adb_info)
+            except BaseException:
+                # Still close the stream, but report the failure of the transfer itself, not one met while closing
+                try:
+                    await self._clse(adb_info)
+                except Exception:  # pylint: disable=broad-except
+                    pass
+                raise
+
+            await self._clse(adb_info)
 
     async def _pull(self, device_path, stream, progress_callback, adb_info, filesync_info):
         """Pull a file from the device into the file-like ``local_path``.
